@@ -77,7 +77,8 @@ def judge_native(rule_name, seq, new):
 
 
 def encode(job):
-    rule_name, L, sd = job
+    rule_name, L, sd = job[:3]
+    prefix = list(job[3]) if len(job) > 3 else []
     from metapype.eml import rule as R
     from metapype.eml.exceptions import ChildNotAllowedError
     from metapype.model.node import Node
@@ -103,9 +104,10 @@ def encode(job):
         Node.store.clear()
         parent = Node(emlctx.element_for_rule(rule_name) or "x", id="p")
         kids = []
-        for i, nm in enumerate(names):
-            k = Node("?", id="c%d" % i)
-            k._name = nm
+        for i, nm in enumerate(list(prefix) + names):
+            k = Node(nm if isinstance(nm, str) else "?", id="c%d" % i)
+            if not isinstance(nm, str):
+                k._name = nm
             k._parent = parent
             kids.append(k)
         parent._children = kids
@@ -152,22 +154,23 @@ def encode(job):
     lo = M.compile_spec(spec, mixed, False)
     dfa = M.build_dfa(lo, alpha)
     useful = M.useful_symbols(dfa, alpha)
-    codes = [n.z for n in names]
-    valids = [run_dfa(dfa, codes[:p] + [new.z] + codes[p:], it) for p in range(L + 1)]
+    codes = [it.mkint(it.intern.code(a)) for a in prefix] + [n.z for n in names]
+    T = len(codes)
+    valids = [run_dfa(dfa, codes[:p] + [new.z] + codes[p:], it) for p in range(T + 1)]
     some_valid = zor(*valids)
-    sugg_valid = zor(*[zand(rz == p, valids[p]) for p in range(L + 1)])
+    sugg_valid = zor(*[zand(rz == p, valids[p]) for p in range(T + 1)])
     rank = lambda z: z3.Sum([z3.If(z == it.intern.code(a), z3.IntVal(i), z3.IntVal(0)) for i, a in enumerate(alpha)] + [z3.IntVal(0)])
-    ordered = zand(*[rank(codes[i]) <= rank(codes[i + 1]) for i in range(L - 1)])
+    ordered = zand(*[rank(codes[i]) <= rank(codes[i + 1]) for i in range(T - 1)])
     breaks_order = zor(*[zand(rz == p, zor(*([rank(codes[i]) > rank(new.z) for i in range(p)] +
-                                               [rank(codes[i]) < rank(new.z) for i in range(p, L)])))
-                         for p in range(L + 1)])
+                                               [rank(codes[i]) < rank(new.z) for i in range(p, T)])))
+                         for p in range(T + 1)])
     is_useful = zor(*[new.z == it.intern.code(a) for a in useful])
     s = it.solver
     s.set("timeout", 600000)
     qs = {
         "refusal_iff_not_in_rule": z3.Xor(refused, znot(known(new.z))),
         "other_exception": other,
-        "out_of_bounds": zand(normal, z3.Or(rz < 0, rz > L)),
+        "out_of_bounds": zand(normal, z3.Or(rz < 0, rz > T)),
         "misses_valid_position": zand(normal, some_valid, znot(sugg_valid)),
         "breaks_declared_order": zand(normal, ordered, breaks_order),
         "allowed_query_wrong": z3.Xor(az, is_useful),
@@ -179,7 +182,7 @@ def encode(job):
     t1 = time.time()
 
     def decode(m):
-        return ([it.intern.decode(it.val(m.eval(z, model_completion=True))) for z in codes],
+        return (list(prefix) + [it.intern.decode(it.val(m.eval(n.z, model_completion=True))) for n in names],
                 it.intern.decode(it.val(m.eval(new.z, model_completion=True))))
     for qn, q in qs.items():
         if qn == "breaks_declared_order" and not s.check(zand(normal, ordered)) == z3.sat:
@@ -217,9 +220,21 @@ def run(tier, only=None):
         top = b["wide_L"] if rn in WIDE else b["L"]
         for L in range(0, top + 1):
             jobs.append((rn, L, sd))
-    jobs.sort(key=lambda j: -j[1] - (3 if j[0] in WIDE else 0))
+    from props import c01 as _c01
+    reps = 8 if tier == "quick" else 12
+    npump = 0
+    for rn in rules:
+        if len(set(M.symbols(R.rules_dict[rn][1]))) != len(M.symbols(R.rules_dict[rn][1])):
+            continue
+        for w in _c01.pumped_words(rn, reps):
+            for L in (0, 1):
+                jobs.append((rn, L, sd, tuple(w)))
+                npump += 1
+    rep.extra["pumped_encodings"] = npump
+    jobs.sort(key=lambda j: -j[1] - (3 if j[0] in WIDE else 0) - (len(j[3]) if len(j) > 3 else 0))
     rep.bounds = dict(b, note="existing child sequences of length 0..L over the rule's names; the new child's name ranges over the "
-                              "rule's names plus a foreign name", bv_width=BV)
+                              "rule's names plus a foreign name; plus pumped sequences: the access word of every self-looping state of the reference automaton, "
+                              "the loop taken %d times, then 0..1 symbolic names" % reps, bv_width=BV)
     rep.extra["rule"] = "one encoding per (rule, length); non-trivial when an index is returned for some input with a valid insertion position"
     rep.assumptions = ["validity of an insertion judged by the lo content-model DFA (vlib/refmodel.py)",
                        "rules name each child at most once (checked per rule; others skipped and listed)",
@@ -230,8 +245,8 @@ def run(tier, only=None):
     pw = []
     validated = 0
     for status, job, r in common.pool_map(encode, jobs):
-        rn, L, _ = job
-        tag = "%s L=%d" % (rn, L)
+        rn, L = job[0], job[1]
+        tag = "%s L=%d%s" % (rn, L, (" after %d concrete children" % len(job[3])) if len(job) > 3 else "")
         if status != "ok":
             rep.mismatch.append("%s: engine crashed: %s" % (tag, r[:300]))
             continue
@@ -274,7 +289,7 @@ def run(tier, only=None):
             if k[0] != "index" or k[1] != idx:
                 if not judge_native(rn, seq, new):
                     rep.mismatch.append("%s: encoding says index %r for %r, native says %r" % (tag, idx, (seq, new), k))
-            rep.nontrivial.add((rn, L))
+            rep.nontrivial.add((rn, L, len(job[3]) if len(job) > 3 else 0))
         if "reach_refused_model" in tw:
             seq, new = tw["reach_refused_model"]
             validated += 1
